@@ -457,3 +457,23 @@ pub fn filter_block_contract() {
     vcover!(verify_king && want_len == 2, "dropping the middle move reachable");
     vcover!(!verify_king, "unchecked mode reachable");
 }
+
+/// prologue of get_moves (slice verif_get_moves_prologue): the output list is emptied, and generation
+/// goes on iff the mover's cached king square holds a king (a position whose king was captured in the
+/// search has no moves)
+pub fn get_moves_prologue_contract() {
+    let mut g = mk::sym_game_nocache(0);
+    let mut moves: ArrayVec<Move, 256> = ArrayVec::new();
+    let filler = Move::CastlingShort { owner: Player::White };
+    let n = nd::usize_below(3);
+    let mut i = 0;
+    while i < n { moves.push(filler); i += 1; }
+    let w = adapt::is_white(g.current_player);
+    let ks = adapt::sq(g.king_positions[if w { 0 } else { 1 }]);
+    let king_there = spec::kind(adapt::code_of(g.board[ks])) == spec::K;
+    let mut went_on = false;
+    g.verif_get_moves_prologue(&mut moves, &mut went_on);
+    assert!(moves.is_empty(), "C01: get_moves does not start from an empty list (stale moves of a previous call survive)");
+    assert!(went_on == king_there, "C01: get_moves' king-missing exit does not match the board");
+    vcover!(!went_on && n == 2, "king-missing exit with a stale list reachable");
+}
